@@ -213,3 +213,80 @@ Fixpoint members (n : nat) (s : eset) : list N :=
 
 (* the escape set of an entry point *)
 Definition escapes (P : prog) (nsites : nat) (T : table) (x : bool) (f : N) : eset := a_esc (lookup T x f).
+
+(* ------------------------------------------------------------------------------------------------
+   A deterministic interpreter driven by an oracle (one bit per Choice / Loop decision).  It only ever
+   follows executions of `exec` (Proofs/C03ExnFlowProofs.run_sound), so a concrete oracle evaluated by
+   vm_compute is a WITNESS that an execution exists — used for the refutations and the non-vacuity
+   examples.  Choice a b: true = a.  Loop: false = leave, true = one more iteration. *)
+Definition out_of_call (o : outcome) : outcome := match o with ORaise i => ORaise i | _ => ONormal end.
+
+Fixpoint first_handler (P : prog) (hs : list (list N * stmt)) (i : N) : option stmt :=
+  match hs with
+  | [] => None
+  | (cs, h) :: r => if catches P cs i then Some h else first_handler P r i
+  end.
+
+Fixpoint run (P : prog) (fuel : nat) (x : bool) (stk : list N) (s : stmt) (orc : list bool) : option (outcome * list bool) :=
+  match fuel with
+  | O => None
+  | S fuel' =>
+      match s with
+      | Skip => Some (ONormal, orc)
+      | Abrupt => Some (OAbrupt, orc)
+      | Raise i => Some (ORaise i, orc)
+      | Reraise k => match nth_error stk k with Some i => Some (ORaise i, orc) | None => None end
+      | Call f =>
+          match nth_error (p_funs P) (N.to_nat f) with
+          | None => None
+          | Some body =>
+              match run P fuel' x [] body orc with
+              | Some (o, orc') => Some (out_of_call o, orc')
+              | None => None
+              end
+          end
+      | Seq a b =>
+          match run P fuel' x stk a orc with
+          | Some (ONormal, orc') => run P fuel' x stk b orc'
+          | r => r
+          end
+      | Choice a b =>
+          match orc with
+          | [] => None
+          | c :: orc' => run P fuel' x stk (if c then a else b) orc'
+          end
+      | Loop a =>
+          match orc with
+          | [] => None
+          | false :: orc' => Some (ONormal, orc')
+          | true :: orc' =>
+              match run P fuel' x stk a orc' with
+              | Some (ONormal, orc'') => run P fuel' x stk (Loop a) orc''
+              | r => r
+              end
+          end
+      | Try b hs oe fin =>
+          match run P fuel' x stk b orc with
+          | None => None
+          | Some (ob, orc1) =>
+              let rh := match ob with
+                        | ONormal => run P fuel' x stk oe orc1
+                        | OAbrupt => Some (OAbrupt, orc1)
+                        | ORaise i => match first_handler P hs i with
+                                      | None => Some (ORaise i, orc1)
+                                      | Some h => run P fuel' x (i :: stk) h orc1
+                                      end
+                        end in
+              match rh with
+              | None => None
+              | Some (oh, orc2) =>
+                  match run P fuel' x stk fin orc2 with
+                  | None => None
+                  | Some (ofin, orc3) => Some (match ofin with ONormal => oh | _ => ofin end, orc3)
+                  end
+              end
+          end
+      | IfX a b => run P fuel' x stk (if x then a else b) orc
+      | WithX b s' => run P fuel' b stk s' orc
+      end
+  end.
